@@ -14,6 +14,7 @@ import (
 	"os/exec"
 	"path/filepath"
 	"regexp"
+	"runtime/pprof"
 	"sort"
 	"strconv"
 	"strings"
@@ -24,13 +25,11 @@ import (
 	"github.com/markusressel/fan2go/internal"
 	"github.com/markusressel/fan2go/internal/api"
 	"github.com/markusressel/fan2go/internal/configuration"
-	"github.com/markusressel/fan2go/internal/control_loop"
 	"github.com/markusressel/fan2go/internal/controller"
-	"github.com/markusressel/fan2go/internal/curves"
 	"github.com/markusressel/fan2go/internal/fans"
+	"github.com/markusressel/fan2go/internal/hwmon"
 	"github.com/markusressel/fan2go/internal/persistence"
 	"github.com/markusressel/fan2go/internal/sensors"
-	"github.com/markusressel/fan2go/internal/statistics"
 	"github.com/markusressel/fan2go/internal/util"
 	"github.com/prometheus/client_golang/prometheus"
 )
@@ -602,8 +601,15 @@ func raceFanRun(ctx context.Context, wg *sync.WaitGroup, c controller.FanControl
 	// the service manager restarting the daemon: prelude, then fresh RPM-monitor and control-loop actors
 	for ctx.Err() == nil {
 		func() {
-			defer func() { _ = recover() }()
-			_ = c.Run(ctx)
+			defer func() {
+				if r := recover(); r != nil && os.Getenv("RACE_DEBUG") != "" {
+					fmt.Fprintf(os.Stderr, "RACE-CHILD-RUN %s panic %v\n", c.GetFanId(), r)
+				}
+			}()
+			err := c.Run(ctx)
+			if os.Getenv("RACE_DEBUG") != "" {
+				fmt.Fprintf(os.Stderr, "RACE-CHILD-RUN %s returned %v\n", c.GetFanId(), err)
+			}
 		}()
 		time.Sleep(time.Millisecond)
 	}
@@ -615,6 +621,9 @@ func raceApi(ctx context.Context, wg *sync.WaitGroup, h http.Handler, paths []st
 		req := httptest.NewRequest(http.MethodGet, paths[rng.Intn(len(paths))], nil)
 		rec := httptest.NewRecorder()
 		h.ServeHTTP(rec, req)
+		// the detector needs unordered, not simultaneous, accesses; back-to-back requests only raise the chance of the
+		// fatal concurrent-map abort, which ends the round early
+		time.Sleep(400 * time.Microsecond)
 	}
 }
 
@@ -643,7 +652,7 @@ func raceChild(ctx *Ctx) {
 	dir := ctx.WorkDir
 	ms := ctx.Param("ms", 2500)
 	rng := NewRng(ctx.Seed, "race")
-	util.VerifSleepNum, util.VerifSleepDen = 1, 400
+	util.VerifSleepNum, util.VerifSleepDen = 1, 1000
 	// transient device faults: every error / warning path of the concurrent activities runs too (failed sensor
 	// reads seen by PID curves and monitors, failed pwm / rpm reads, failed pwm writes).  The decision is a pure
 	// function of the path and the clock: no shared state, no lock - a lock here would order the goroutines and
@@ -651,32 +660,39 @@ func raceChild(ctx *Ctx) {
 	raceFaultEvery := func(path string) int64 {
 		base := filepath.Base(path)
 		switch {
+		case base == "pwm1" || base == "fan1_input":
+			return 0 // f_hw1 is the fan that runs the initialisation sequence: it has to get through
 		case strings.HasPrefix(base, "temp"):
 			return 32
-		case strings.HasSuffix(base, "_rpm"):
+		case strings.HasSuffix(base, "_rpm"), strings.HasSuffix(base, "_input"):
 			return 24
-		case strings.HasSuffix(base, "_pwm"):
+		case strings.HasSuffix(base, "_enable"):
+			return 0
+		case strings.HasSuffix(base, "_pwm"), strings.HasPrefix(base, "pwm"):
 			return 48
 		}
 		return 0
 	}
+	// faults start after the first 40% of the run: the initialisation sequence of f_hw1 (several hundred device
+	// reads under InitializationSequenceMutex) has to get through once, or every other prelude starves behind it
+	raceFaultsFrom := time.Now().Add(time.Duration(ms) * time.Millisecond * 2 / 5).UnixNano()
 	util.VerifReadHook = func(path string) ([]byte, error, bool) {
-		if n := raceFaultEvery(path); n > 0 && (time.Now().UnixNano()>>14)%n == 0 {
+		if n := raceFaultEvery(path); n > 0 && time.Now().UnixNano() > raceFaultsFrom && (time.Now().UnixNano()>>14)%n == 0 {
 			return nil, syscall.EIO, true
 		}
 		return nil, nil, false
 	}
 	util.VerifWriteHook = func(path string, data []byte) (error, bool) {
-		if n := raceFaultEvery(path); n > 0 && strings.HasSuffix(path, "_pwm") && (time.Now().UnixNano()>>14)%n == 1 {
+		if n := raceFaultEvery(path); n == 48 && time.Now().UnixNano() > raceFaultsFrom && (time.Now().UnixNano()>>14)%n == 1 {
 			return syscall.EIO, true
 		}
 		return nil, false
 	}
 	cfg := &configuration.CurrentConfig
 	cfg.DbPath = filepath.Join(dir, "fan2go.db")
-	cfg.RunFanInitializationInParallel = rng.Bool()
+	cfg.RunFanInitializationInParallel = rng.Intn(4) != 0
 	cfg.MaxRpmDiffForSettledFan = 20
-	cfg.FanResponseDelay = 1
+	cfg.FanResponseDelay = 0
 	cfg.TempSensorPollingRate = time.Millisecond
 	cfg.TempRollingWindowSize = 5
 	cfg.RpmPollingRate = time.Millisecond
@@ -686,105 +702,105 @@ func raceChild(ctx *Ctx) {
 	p := func(n string) string { return filepath.Join(dir, n) }
 	raceWrite(p("temp1"), 45000)
 	raceWrite(p("temp2"), 52000)
-	// ---- sensors (like initializeSensors)
-	sensorCfgs := []configuration.SensorConfig{
-		{ID: "s_hw", HwMon: &configuration.HwMonSensorConfig{Platform: "fake", Index: 1, TempInput: p("temp1")}},
+	// ---- the configuration, as the loader would leave it in configuration.CurrentConfig: 8 fans with every way of
+	// selecting the control algorithm (default = PID per fan, explicit pid, deprecated controlLoop block, direct
+	// without limit x2, direct with limit x2), all on curves over the shared sensor s_hw / s_file
+	cfg.Sensors = []configuration.SensorConfig{
+		{ID: "s_hw", HwMon: &configuration.HwMonSensorConfig{Platform: "fake", Index: 1}},
 		{ID: "s_file", File: &configuration.FileSensorConfig{Path: p("temp2")}},
 	}
-	var sensorList []sensors.Sensor
-	for _, sc := range sensorCfgs {
-		s, err := sensors.NewSensor(sc)
-		if err != nil {
-			panic(err)
-		}
-		v, _ := s.GetValue()
-		s.SetMovingAvg(v)
-		sensors.RegisterSensor(s)
-		sensorList = append(sensorList, s)
-	}
-	statistics.Register(statistics.NewSensorCollector(sensorList))
-	// ---- curves (like initializeCurves)
-	curveCfgs := []configuration.CurveConfig{
+	cfg.Curves = []configuration.CurveConfig{
 		{ID: "c_lin", Linear: &configuration.LinearCurveConfig{Sensor: "s_hw", Min: 30, Max: 80}},
 		{ID: "c_steps", Linear: &configuration.LinearCurveConfig{Sensor: "s_file", Steps: map[int]float64{30: 10, 50: 120, 80: 255}}},
 		{ID: "c_pid", PID: &configuration.PidCurveConfig{Sensor: "s_hw", SetPoint: 50, P: -0.05, I: -0.005, D: -0.001}},
 		{ID: "c_fn", Function: &configuration.FunctionCurveConfig{Type: configuration.FunctionMaximum, Curves: []string{"c_lin", "c_steps"}}},
 	}
-	var curveList []curves.SpeedCurve
-	for _, cc := range curveCfgs {
-		c, err := curves.NewSpeedCurve(cc)
-		if err != nil {
-			panic(err)
+	two, five := 2, 5
+	racePwmIdentity := map[int]int{} // pwm map override for the cmd fan: a sweep would spawn 512 processes
+	for k := 0; k < 256; k++ {
+		racePwmIdentity[k] = k
+	}
+	direct := func(limit *int) *configuration.ControlAlgorithmConfig {
+		return &configuration.ControlAlgorithmConfig{Direct: &configuration.DirectControlAlgorithmConfig{MaxPwmChangePerCycle: limit}}
+	}
+	// one fake hwmon chip with 4 fans (pwmN, pwmN_enable, fanN_input) and the temperature input of s_hw
+	chip := &hwmon.HwMonController{Name: "fake", Platform: "fake", Path: dir, Sensors: map[int]*sensors.HwmonSensor{1: {Index: 1, Input: p("temp1")}}}
+	hw := func(n int, id, curve string, neverStop bool, rpm int, alg *configuration.ControlAlgorithmConfig) configuration.FanConfig {
+		raceWrite(p(fmt.Sprintf("pwm%d", n)), 120)
+		raceWrite(p(fmt.Sprintf("pwm%d_enable", n)), 2)
+		raceWrite(p(fmt.Sprintf("fan%d_input", n)), rpm)
+		chip.Fans = append(chip.Fans, fans.HwMonFan{Index: n, Config: configuration.FanConfig{
+			HwMon: &configuration.HwMonFanConfig{Platform: "fake", Index: n, RpmChannel: n, PwmChannel: n, SysfsPath: dir}}})
+		fc := configuration.FanConfig{ID: id, NeverStop: neverStop, Curve: curve, ControlAlgorithm: alg,
+			HwMon: &configuration.HwMonFanConfig{Platform: "fake", Index: n}}
+		if n != 1 { // only f_hw1 sweeps its pwm map (and measures its rpm curve); with parallel initialisation
+			// disabled every sweep is serialised behind InitializationSequenceMutex and nothing else would get going
+			fc.PwmMap = &racePwmIdentity
 		}
-		curves.RegisterSpeedCurve(c)
-		curveList = append(curveList, c)
+		return fc
 	}
-	statistics.Register(statistics.NewCurveCollector(curveList))
-	// ---- fans (like initializeFans)
-	two := 2
-	hw := func(id, curve string, neverStop bool, rpm int) configuration.FanConfig {
-		raceWrite(p(id+"_pwm"), 120)
-		raceWrite(p(id+"_enable"), 2)
-		raceWrite(p(id+"_rpm"), rpm)
-		return configuration.FanConfig{ID: id, NeverStop: neverStop, Curve: curve,
-			HwMon: &configuration.HwMonFanConfig{Platform: "fake", Index: 1, RpmChannel: 1, PwmChannel: 1, SysfsPath: dir,
-				RpmInputPath: p(id + "_rpm"), PwmPath: p(id + "_pwm"), PwmEnablePath: p(id + "_enable")}}
+	file := func(id, curve string, alg *configuration.ControlAlgorithmConfig) configuration.FanConfig {
+		raceWrite(p(id+"_pwm"), 100)
+		raceWrite(p(id+"_rpm"), 900)
+		return configuration.FanConfig{ID: id, Curve: curve, ControlAlgorithm: alg, PwmMap: &racePwmIdentity,
+			File: &configuration.FileFanConfig{Path: p(id + "_pwm"), RpmPath: p(id + "_rpm")}}
 	}
-	raceWrite(p("ffile_pwm"), 100)
-	raceWrite(p("ffile_rpm"), 900)
-	fanCfgs := []configuration.FanConfig{
-		hw("f_hw1", "c_pid", true, 0),
-		hw("f_hw2", "c_pid", false, 1200),
-		{ID: "f_file", Curve: "c_fn", File: &configuration.FileFanConfig{Path: p("ffile_pwm"), RpmPath: p("ffile_rpm")},
-			ControlAlgorithm: &configuration.ControlAlgorithmConfig{Direct: &configuration.DirectControlAlgorithmConfig{MaxPwmChangePerCycle: &two}}},
-		{ID: "f_cmd", Curve: "c_lin", Cmd: &configuration.CmdFanConfig{
-			SetPwm: &configuration.ExecConfig{Exec: "/bin/true", Args: []string{"%pwm%"}},
-			GetPwm: &configuration.ExecConfig{Exec: "/bin/echo", Args: []string{"97"}},
-			GetRpm: &configuration.ExecConfig{Exec: "/bin/echo", Args: []string{"1100"}}}},
+	cfg.Fans = []configuration.FanConfig{
+		hw(1, "f_hw1", "c_pid", true, 0, nil),              // default PID, never-stop fan that stands still
+		hw(2, "f_hw2", "c_pid", false, 1200, nil),          // default PID, shares the PID curve
+		hw(3, "f_hw3", "c_lin", false, 1500, direct(nil)),  // direct, no limit
+		hw(4, "f_hw4", "c_lin", false, 800, direct(&five)), // direct, limited
+		file("f_file1", "c_fn", direct(nil)),               // direct, no limit
+		file("f_file2", "c_steps", direct(&two)),           // direct, limited
+		file("f_file3", "c_fn", &configuration.ControlAlgorithmConfig{Pid: &configuration.PidControlAlgorithmConfig{P: 0.3, I: 0.02, D: 0.005}}),
+		{ID: "f_cmd", Curve: "c_lin", PwmMap: &racePwmIdentity, ControlLoop: &configuration.ControlLoopConfig{P: 0.3, I: 0.02, D: 0.005}, //nolint:all
+			Cmd: &configuration.CmdFanConfig{
+				SetPwm: &configuration.ExecConfig{Exec: "/bin/true", Args: []string{"%pwm%"}},
+				GetPwm: &configuration.ExecConfig{Exec: "/bin/echo", Args: []string{"97"}},
+				GetRpm: &configuration.ExecConfig{Exec: "/bin/echo", Args: []string{"1100"}}}},
 	}
 	pers := persistence.NewPersistence(cfg.DbPath)
 	if err := pers.Init(); err != nil {
 		panic(err)
 	}
-	var fanList []fans.Fan
+	// ---- objects and controllers through the REAL start-up glue of backend.go (initializeSensors, initializeCurves,
+	// initializeFans, initializeFanControllers incl. control-loop selection and collector registration)
+	ctrlMap, err := internal.VerifRaceInitialize([]*hwmon.HwMonController{chip}, pers)
+	if err != nil {
+		panic(err)
+	}
 	var ctrls []controller.FanController
-	for i, fc := range fanCfgs {
-		f, err := fans.NewFan(fc)
-		if err != nil {
-			panic(err)
-		}
-		fans.RegisterFan(f)
-		fanList = append(fanList, f)
-		if i == 1 { // second hwmon fan: characterisation already stored (the other one runs the initialisation sequence)
+	for f, c := range ctrlMap {
+		ctrls = append(ctrls, c)
+		if id := f.GetId(); id == "f_hw2" || id == "f_hw3" || id == "f_hw4" { // characterisation already stored (the others run the initialisation sequence)
 			data := map[int]float64{0: 0, 40: 600, 255: 2400}
 			_ = f.AttachFanRpmCurveData(&data)
 			_ = pers.SaveFanPwmData(f)
-			id := map[int]int{}
+			idm := map[int]int{}
 			for k := 0; k < 256; k++ {
-				id[k] = k
+				idm[k] = k
 			}
-			_ = pers.SaveFanPwmMap(fc.ID, id)
+			_ = pers.SaveFanPwmMap(id, idm)
 		}
-		var loop control_loop.ControlLoop
-		switch {
-		case fc.ControlAlgorithm != nil && fc.ControlAlgorithm.Direct != nil:
-			loop = control_loop.NewDirectControlLoop(fc.ControlAlgorithm.Direct.MaxPwmChangePerCycle)
-		default:
-			loop = control_loop.NewPidControlLoop(control_loop.DefaultPidConfig.P, control_loop.DefaultPidConfig.I, control_loop.DefaultPidConfig.D)
-		}
-		ctrls = append(ctrls, controller.NewFanController(pers, f, loop, cfg.ControllerAdjustmentTickRate))
 	}
-	statistics.Register(statistics.NewFanCollector(fanList))
-	statistics.Register(statistics.NewControllerCollector(ctrls))
+	sort.Slice(ctrls, func(i, j int) bool { return ctrls[i].GetFanId() < ctrls[j].GetFanId() })
+	var sensorList []sensors.Sensor
+	for _, sc := range cfg.Sensors {
+		s, ok := sensors.GetSensor(sc.ID)
+		if !ok {
+			panic("sensor not registered: " + sc.ID)
+		}
+		sensorList = append(sensorList, s)
+	}
 	rest := api.CreateRestService()
 	paths := []string{"/fan/", "/sensor/", "/curve/", "/alive/", "/fan/nope/"}
-	for _, fc := range fanCfgs {
+	for _, fc := range cfg.Fans {
 		paths = append(paths, "/fan/"+fc.ID+"/")
 	}
-	for _, sc := range sensorCfgs {
+	for _, sc := range cfg.Sensors {
 		paths = append(paths, "/sensor/"+sc.ID+"/")
 	}
-	for _, cc := range curveCfgs {
+	for _, cc := range cfg.Curves {
 		paths = append(paths, "/curve/"+cc.ID+"/")
 	}
 
@@ -808,10 +824,13 @@ func raceChild(ctx *Ctx) {
 		go raceFanRun(rctx, &wg, c)
 	}
 	wg.Add(1)
-	go raceThirdParty(rctx, &wg, []string{p("f_hw1_pwm"), p("f_hw2_pwm"), p("ffile_pwm"), p("temp1"), p("temp2")},
-		[]int{0, 0, 0, 30000, 30000}, []int{255, 255, 255, 80000, 80000}, NewRng(ctx.Seed, "third"))
+	go raceThirdParty(rctx, &wg, []string{p("pwm1"), p("pwm2"), p("pwm3"), p("f_file1_pwm"), p("temp1"), p("temp2")},
+		[]int{0, 0, 0, 0, 30000, 30000}, []int{255, 255, 255, 255, 80000, 80000}, NewRng(ctx.Seed, "third"))
 
 	time.Sleep(time.Duration(ms) * time.Millisecond)
+	if os.Getenv("RACE_DEBUG") != "" {
+		_ = pprof.Lookup("goroutine").WriteTo(os.Stderr, 1)
+	}
 	cancel()
 	done := make(chan struct{})
 	go func() { wg.Wait(); close(done) }()
@@ -821,6 +840,12 @@ func raceChild(ctx *Ctx) {
 		fmt.Fprintln(os.Stderr, "RACE-CHILD-STUCK")
 	}
 	w := bufio.NewWriter(os.Stderr)
+	for _, c := range ctrls {
+		if d, ok := c.(*controller.DefaultFanController); ok {
+			v, set := d.VerifLastSetPwm()
+			fmt.Fprintf(w, "RACE-CHILD-FAN %s lastSetPwm=%d set=%v stats=%+v\n", c.GetFanId(), v, set, c.GetStatistics())
+		}
+	}
 	fmt.Fprintln(w, "RACE-CHILD-DONE")
 	w.Flush()
 }
